@@ -17,19 +17,21 @@ RULE = ("full product kind x required x nullability notation (none, 3.0 nullable
 FLOOR = 0.5
 ASSUMPTIONS = ["nullable iff nullable:true on a typed non-enum schema, 'null' in a type list, a null oneOf/anyOf member, or null among enum values (DESIGN §2.4)"]
 
-KINDS = ["str", "int", "num", "bool", "date", "datetime", "uuid", "enum_str", "enum_int", "model_ref", "enum_ref", "inline_object",
+KINDS = ["str", "int", "num", "bool", "date", "datetime", "uuid", "enum_str", "enum_int", "enum_str0", "enum_int0", "const", "model_ref", "enum_ref", "inline_object",
          ["array", "str"], ["array", "int"], ["array", "model_ref"], ["array", "date"], ["union", "int", "str"], ["union", "model_ref", "int"]]
 DEFAULTS = {"str": "dflt", "int": 3, "num": 2.5, "bool": True, "date": "2001-02-03", "datetime": "2001-02-03T04:05:06+00:00",
             "uuid": K.UUID2, "enum_str": "b", "enum_int": -2, "enum_ref": "y"}
-PARAM_OK = {"str", "int", "num", "bool", "date", "datetime", "uuid", "enum_str", "enum_int", "enum_ref", "array(str)", "array(int)",
+PARAM_OK = {"str", "int", "num", "bool", "date", "datetime", "uuid", "enum_str", "enum_int", "enum_str0", "enum_int0", "enum_ref", "array(str)", "array(int)",
             "union(int,str)"}
 
 
 def _notations(kind):
     ks = K.kstr(kind)
     out = ["none"]
-    if ks in ("enum_str", "enum_int"):
+    if ks in ("enum_str", "enum_int", "enum_str0", "enum_int0"):
         return out + ["oneof", "anyof", "enumnull"]
+    if ks == "const":
+        return out + ["oneof", "anyof", "oneof-null-first"]
     if ks.startswith("union"):
         return out + ["oneof"]
     return out + ["t30", "t31", "oneof", "anyof"]
@@ -37,6 +39,12 @@ def _notations(kind):
 
 def _wrap(kind, notation):
     return kind if notation == "none" else ["nullable", kind, notation]
+
+
+def _schema(full, comps):
+    if isinstance(full, list) and full[0] == "nullable" and full[2] == "oneof-null-first":
+        return {"oneOf": [{"type": "null"}, K.schema(full[1], comps)]}
+    return K.schema(full, comps)
 
 
 def cases(tier):
@@ -52,7 +60,7 @@ def cases(tier):
                         positions += ["query", "header", "cookie"] + (["path"] if req else [])
                     for pos in positions:
                         comps = {}
-                        sch = K.schema(full, comps)
+                        sch = _schema(full, comps)
                         if dflt:
                             sch = _with_default(sch, DEFAULTS[ks])
                         labels = [f"kind={ks}", f"null={notation}", "req" if req else "opt", f"pos={pos}"] + (["default"] if dflt else [])
@@ -226,16 +234,18 @@ def _model_one(p, cls, sb, key):
                     viol.append({"oracle": "null-encode", "site": pos, "key": key, "detail": f"None encodes as {e!r}"})
         except Exception as exc:  # noqa: BLE001
             viol.append({"oracle": "null-decode", "site": pos, "key": f"{key}/{err_class(exc)}", "detail": f"from_dict with null raised {exc!r}"})
-    # 4. present
-    try:
-        o = cls.from_dict({"p": copy.deepcopy(sample), "other": 1})
-        if o.p is unset or (o.p is None and sample is not None):
-            viol.append({"oracle": "value-decode", "site": pos, "key": key, "detail": f"value {sample!r} decodes to {o.p!r}"})
-        e = o.to_dict()
-        if not K.json_eq(e.get("p", "<absent>"), sample):
-            viol.append({"oracle": "value-encode", "site": pos, "key": key, "detail": f"value {sample!r} re-encodes as {e!r}"})
-    except Exception as exc:  # noqa: BLE001
-        viol.append({"oracle": "value-decode", "site": pos, "key": f"{key}/{err_class(exc)}", "detail": f"from_dict with {sample!r} raised {exc!r}"})
+    # 4. present: every sample value, the falsy ones ("" / 0 / False / [] / {}) included
+    for _c, sample in [x for x in K.samples(p["kind"]) if x[0] != "null"][:4]:
+        falsy = "/falsy" if (sample in ("", 0, False) or sample == [] or sample == {}) else ""
+        try:
+            o = cls.from_dict({"p": copy.deepcopy(sample), "other": 1})
+            if o.p is unset or (o.p is None and sample is not None):
+                viol.append({"oracle": "value-decode", "site": pos, "key": key + falsy, "detail": f"value {sample!r} decodes to {o.p!r}"})
+            e = o.to_dict()
+            if not K.json_eq(e.get("p", "<absent>"), sample):
+                viol.append({"oracle": "value-encode", "site": pos, "key": key + falsy, "detail": f"value {sample!r} re-encodes as {e!r}"})
+        except Exception as exc:  # noqa: BLE001
+            viol.append({"oracle": "value-decode", "site": pos, "key": f"{key}{falsy}/{err_class(exc)}", "detail": f"from_dict with {sample!r} raised {exc!r}"})
     # 5. declared type admits None exactly when the schema is nullable
     if _admits_none(ann) != nullable and ann is not typing.Any:
         viol.append({"oracle": "hint-nullability", "site": pos, "key": key, "detail": f"schema nullable={nullable} but attribute annotated {ann!r}"})
@@ -296,6 +306,23 @@ def _param_one(p, res, sb, ep, key):
                 sent = (pos == "query" and q["query"]) or (pos == "cookie" and q["cookies"]) or (pos == "header" and any(k == "p" for k, _ in q["headers"]))
                 if sent:
                     viol.append({"oracle": "param-absent-wire", "site": pos, "key": key, "detail": f"omitted parameter transmitted: {wire.req_summary(q)!r}"})
+    # present: every sample value, the falsy ones included, is transmitted (an empty array has nothing to transmit)
+    if pos != "path":
+        for _c, sample in [x for x in K.samples(p["kind"]) if x[0] != "null"][:4]:
+            if sample == []:
+                continue
+            try:
+                val = pyval.pythonize(ann, copy.deepcopy(sample))
+            except pyval.NoFit:
+                continue
+            r = wire.call(mod, "sync_detailed", lambda: wire.make_client(sb, cap), cap, {py: val})
+            if not r["ok"] or not r["requests"]:
+                continue          # a value the location cannot carry raises in httpx: C03's recorded business
+            q = r["requests"][0]
+            sent = (pos == "query" and any(k == "p" for k, _ in q["query"])) or (pos == "cookie" and "p" in q["cookies"]) or (pos == "header" and any(k == "p" for k, _ in q["headers"]))
+            if not sent:
+                falsy = "/falsy" if sample in ("", 0, False) else ""
+                viol.append({"oracle": "param-present-wire", "site": pos, "key": key + falsy, "detail": f"argument {sample!r} was passed but nothing was transmitted: {wire.req_summary(q)!r}"})
     return viol
 
 
